@@ -697,6 +697,36 @@ pub fn gen_boundary_number(rng: &mut Rng, out: &mut Vec<u8>) {
         2 => out.extend_from_slice(*rng.pick(&[&b"#x"[..], b"#b", b"#o", b"#d", b"#x-", b"#d+"])),
         _ => {}
     }
+    if rng.chance(1, 2) {
+        // digits of a value at which the scanner's arithmetic changes regime,
+        // with the decimal point anywhere in or after them and a few more digits
+        const EDGES: &[&str] = &[
+            "18446744073709551615", "18446744073709551616", "18446744073709551614", "1844674407370955161", "1844674407370955162",
+            "9223372036854775807", "9223372036854775808", "9223372036854775809", "9007199254740992", "9007199254740993", "4294967295", "4294967296",
+            "10000000000000000000", "9999999999999999999", "99999999999999999999", "17976931348623157", "4940656458412465", "22250738585072014",
+        ];
+        let digits = rng.pick(EDGES).as_bytes();
+        let extra: Vec<u8> = (0..rng.urange(0, 3)).map(|_| *rng.pick(b"04599")).collect();
+        let mut all = digits.to_vec();
+        all.extend_from_slice(&extra);
+        if rng.chance(1, 4) {
+            // leading zeros and a fraction-only spelling
+            out.extend_from_slice(b"0.000");
+            out.extend_from_slice(&all);
+        } else if rng.chance(2, 3) {
+            let p = rng.urange(1, all.len());
+            out.extend_from_slice(&all[..p]);
+            out.push(b'.');
+            out.extend_from_slice(&all[p..]);
+        } else {
+            out.extend_from_slice(&all);
+        }
+        if rng.chance(1, 3) {
+            out.push(*rng.pick(b"eE"));
+            out.extend_from_slice(*rng.pick(&[&b"0"[..], b"-7", b"+19", b"-19", b"308", b"-324", b"292"]));
+        }
+        return;
+    }
     let nd = *rng.pick(&[1usize, 2, 18, 19, 20, 21, 25, 40, 310, 330]);
     let lead = *rng.pick(&[b'0', b'1', b'9', b'1', b'9']);
     for i in 0..nd {
